@@ -142,6 +142,19 @@ NS_OPS = {
     'REDEFINE_K': "KOLD = K()\nclass K:\n    tag = {n}\nK.__module__ = 'vlib.hintenv'\n",
 }
 INIT_K = "class K:\n    tag = 0\nK.__module__ = 'vlib.hintenv'\n"
+# hot reload: long-lived decorated callables whose absolute forward reference is unresolvable when they are decorated,
+# then a *decorated* class defined and redefined under the same module and name.  The reference interpreter sees the
+# callables and the latest definition only (marked lines are collapsed by reference()).
+DEFINE_WF = ("#WF-DEF\n"
+             "def _wf(a: 'vlib.hintenv.W'):\n    return None\n_wf = _bt(_wf)\n"
+             "def _wf2(a: \"list['vlib.hintenv.W']\"):\n    return None\n_wf2 = _bt(_wf2)\n"
+             "def _wf3(a) -> \"Optional['vlib.hintenv.W']\":\n    return a\n_wf3 = _bt(_wf3)\n")
+DEFINE_W = "#W-DEF\n@_bt\nclass W:\n    tag = {n}\n    def m(self, a: int) -> 'W':\n        return self\n"
+HOTRELOAD_QUERIES = ['_ans(lambda: _wf(W()))', '_ans(lambda: _wf(1))', '_ans(lambda: _wf2([W()]))', '_ans(lambda: _wf2([1]))',
+                     '_ans(lambda: _wf3(W()) is not None)', '_ans(lambda: _wf3(None) is None)', '_ans(lambda: _wf3("x") is None)',
+                     '_ans(lambda: W().m(1) is not None)',
+                     "call(lambda: \"W\", lambda: W(), 'CONF0')", "ib(lambda: W(), lambda: W, 'CONF0')",
+                     "ib(lambda: [W()], lambda: list[W], 'CONF0')", '_ans(lambda: W().m("s") is None)']
 
 
 FAMILIES = {
@@ -173,12 +186,16 @@ FAMILIES = {
                  ['1', '"a"', 'R1()', 'R2()', '[R1()]', '[R2()]', '[1]', '["a"]', 'None']),
     # relative forward references in two module scopes and typing.Self in several classes (scoped_query_src)
     'scoped': ([], []),
+    # a decorated class redefined again and again under long-lived callables referring to it by name (build())
+    'hotreload': ([], []),
 }
 
 
 def query_src(rng, family=None):
     if family == 'scoped':
         return scoped_query_src(rng)
+    if family == 'hotreload':
+        return rng.choice(HOTRELOAD_QUERIES)
     hs, os_ = FAMILIES[family] if family else (HINTS, OBJS)
     form = rng.choice(('ib', 'ib', 'ib', 'die', 'sub', 'theq', 'thsub', 'call', 'call', 'ret'))
     h = rng.choice(hs)
@@ -220,8 +237,12 @@ def base_ns():
     this VM serialises forks at ~130/s over all processes)."""
     global _BASE_NS
     if _BASE_NS is None:
-        ns = dict(hints.env())
-        ns['__name__'] = 'vlib.hintenv'
+        # the namespace IS the globals of the real module vlib.hintenv (not a copy): names bound by the steps of a
+        # history are then attributes of sys.modules['vlib.hintenv'], which is where beartype resolves the forward
+        # references of callables whose __module__ is 'vlib.hintenv'.  Children are forked, so whatever a history binds
+        # stays private to its child.
+        ns = hints.env()
+        assert ns['__name__'] == 'vlib.hintenv'
         exec(PRELUDE, ns)
         exec(INIT_K, ns)
         # beartype imports most of itself lazily on first use (~0.3 s): import every
@@ -249,7 +270,7 @@ def run_in_child(steps):
         out = []
         try:
             os.close(r)
-            ns = dict(base_ns())
+            ns = base_ns()
             for kind, src in steps:
                 if kind == 'query':
                     try:
@@ -295,8 +316,11 @@ def main():
 
     def reference(ns_ops, q):
         # the namespace state matters only to queries that name what it (re)binds
-        if not any(t in q for t in ('LaterCls', 'LATER', 'K')):
+        if not any(t in q for t in ('LaterCls', 'LATER', 'K')) and q not in HOTRELOAD_QUERIES:
             ns_ops = ()
+        # hot reload: the pristine interpreter sees the long-lived callables and the latest definition of W only
+        last_w = max([i for i, s in enumerate(ns_ops) if s.startswith('#W-DEF')], default=None)
+        ns_ops = [s for i, s in enumerate(ns_ops) if not s.startswith('#W-DEF') or i == last_w]
         key = (tuple(ns_ops), q)
         if key not in ref_cache:
             steps = [('ns', s) for s in ns_ops] + [('query', q)]
@@ -334,6 +358,21 @@ def main():
             focus = rng.choice(SCOPED)
             local = [scoped_query_src(rng, focus) for _ in range(6)]
         W.add('families', family)
+        if family == 'hotreload':
+            gen = 1
+            steps += [('ns', DEFINE_WF), ('ns', DEFINE_W.format(n=gen))]
+            for _ in range(n):
+                r = rng.random()
+                if r < .25 and gen < 7:
+                    gen += 1
+                    steps.append(('ns', DEFINE_W.format(n=gen)))
+                elif r < .32:
+                    steps.append(('noise', noise_src(rng)))
+                else:
+                    steps.append(('query', rng.choice(HOTRELOAD_QUERIES) if rng.random() < .9 else rng.choice(pools[None])))
+            W.count('hotreload_histories')
+            W.count('hotreload_redefinitions', gen - 1)
+            return steps
         for _ in range(n):
             r = rng.random()
             if r < (.15 if family == 'forward' else .03) and 'DEFINE_LATER' not in ns_ops:
@@ -374,6 +413,10 @@ def main():
          ('query', "callm('c14_scope1', lambda: list[\"Node\"], lambda M: [M.Node()], 'CONF0')")],
         [('query', "selfm('S1', lambda: tuple[Self, int], lambda M: (M(), 1))"), ('query', "selfm('S2', lambda: tuple[Self, int], lambda M: (M(), 1))"),
          ('query', "selfm('S1', lambda: Optional[Self], lambda M: M())"), ('query', "selfm('S2', lambda: Optional[Self], lambda M: M())")],
+        # a decorated class hot-reloaded five times under long-lived callables naming it
+        [('ns', DEFINE_WF)] + [st for g in range(1, 6) for st in (
+            ('ns', DEFINE_W.format(n=g)), ('query', '_ans(lambda: _wf(W()))'), ('query', '_ans(lambda: _wf2([W()]))'),
+            ('query', '_ans(lambda: _wf3(W()) is not None)'), ('query', '_ans(lambda: W().m(1) is not None)'))],
         # same-named, differently meant hints wrapped one after the other
         [('query', "sub(lambda: int, lambda: TypeVar('T', bound=int))"), ('query', "sub(lambda: int, lambda: TypeVar('T', bound=str))"),
          ('query', "sub(lambda: str, lambda: NewType('N', str))"), ('query', "sub(lambda: NewType('N', int), lambda: str)"),
